@@ -502,7 +502,7 @@ def _spy_call(rec_ord, kind, args, effect):
         elif ctx.delay:
             ctx.in_storage_since = time.monotonic()
             time.sleep(ctx.delay)
-        f = ctx.fails.get((rec_ord, kind, tuple(args)))
+        f = ctx.fails.get((rec_ord, kind, ident(kind, args)))
         if f is not None:
             entry[3] = False
             raise FAIL_EXC[f % len(FAIL_EXC)]("injected failure of %s on r%d" % (kind, rec_ord))
@@ -580,9 +580,20 @@ def live_state(spy):
 def op_args(op):
     if op['k'] == 'set':
         return (op['key'], op['val'])
-    if op['k'] == 'meta':
+    if op['k'] in ('meta', 'metamut'):
         return tuple((k, v) for k, v in op['items'])
     return ()
+
+
+def spy_kind(op):
+    return 'meta' if op['k'] == 'metamut' else op['k']
+
+
+def ident(kind, args):
+    """what identifies a storage call as a particular request: values are unique per request; a metadata call is
+    identified by its first item (the dict may have grown since the request, finding F12)"""
+    args = tuple(tuple(a) if isinstance(a, list) else a for a in args)
+    return args[:1] if kind == 'meta' else args
 
 
 def fail_table(case):
@@ -590,22 +601,28 @@ def fail_table(case):
     for p, ops in enumerate(case['work']):
         for op in ops:
             if op.get('fail'):
-                t[(op['rec'], op['k'], op_args(op))] = op['fail']
+                t[(op['rec'], spy_kind(op), ident(spy_kind(op), op_args(op)))] = op['fail']
     return t
 
 
-def request(cas, recs, op):
+def request(cas, recs, op, late=False):
     """One request through the public API of the cassette under test (or of the synchronous twin)."""
     r = recs[op['rec']]
     if op['k'] == 'set':
         r.set_data('k%d' % op['key'], op['val'])
     elif op['k'] == 'meta':
         r.add_metadata(dict(('m%d' % k, v) for k, v in op['items']))
+    elif op['k'] == 'metamut':
+        d = dict(('m%d' % k, v) for k, v in op['items'])
+        if late:        # (twin only) what the request would be if the caller's later change came first
+            d['m%d' % op['mkey']] = op['mval']
+        r.add_metadata(d)
+        d['m%d' % op['mkey']] = op['mval']      # the caller goes on using its own dict
     else:
         cas.save_recording(r)
 
 
-def run_twin(case, order):
+def run_twin(case, order, late=False):
     """Synchronous recording of the requests [(producer, idx)] in the given order, straight into the same spy class."""
     global SPY_CTX, S
     old_ctx, old_s = SPY_CTX, S
@@ -616,7 +633,7 @@ def run_twin(case, order):
         flags = []
         for p, i in order:
             try:
-                request(spy, recs, case['work'][p][i])
+                request(spy, recs, case['work'][p][i], late=late)
                 flags.append(True)
             except Exception:
                 flags.append(False)
@@ -632,10 +649,10 @@ def identify(case, log, enq_order):
     pool = {}
     for p, i in enq_order:
         op = case['work'][p][i]
-        pool.setdefault((op['rec'], op['k'], op_args(op)), []).append((p, i))
+        pool.setdefault((op['rec'], spy_kind(op), ident(spy_kind(op), op_args(op))), []).append((p, i))
     applied, phantom = [], []
     for rec, kind, args, ok, role in log:
-        cands = pool.get((rec, kind, tuple(tuple(a) if isinstance(a, list) else a for a in args)))
+        cands = pool.get((rec, kind, ident(kind, args)))
         if cands:
             p, i = cands.pop(0)
             applied.append([p, i, bool(ok)])
@@ -747,6 +764,8 @@ def run_once(case, policy, gran):
         closed_at=ctx.closed_at, ncalls=len(ctx.log), leftover=leftover,
         viol=sorted(sched.viol), problems=sorted(set(sched.problems)),
         twin_order=[list(x) for x in order], twin=twin)
+    if any(op['k'] == 'metamut' for ops in case['work'] for op in ops):
+        obs['twin_late'] = run_twin(case, order, late=True)
     return obs, sched
 
 
